@@ -152,6 +152,7 @@ Definition c10_ast (t : table) : table :=
   (if rc_repeated_statement G then [[Str "rc"; Str "repeated_statement"]] else []) ++
   (if rc_tau_literal tg G then [[Str "rc"; Str "tau_literal"]] else []) ++
   (if rc_prefix_in_local tg then [[Str "rc"; Str "prefix_in_local"]] else []) ++
+  (if rc_sparql_kw_in_query tg then [[Str "rc"; Str "sparql_kw_in_query"]] else []) ++
   (if rc_same_shape_name tg G then [[Str "rc"; Str "same_shape_name"]] else []) ++
   enc_tspec sp ++ enc_denotation tg orc G ++ enc_outcome (run orc sp G).
 
